@@ -89,5 +89,7 @@ def printed_ok(got, exact, digits, rel=1e-9):
         return got == exact
     if exact == 0:
         return abs(got) <= 1e-300 or abs(got) < 1e-12
+    if abs(got - exact) < 1e-12:
+        return True      # both are rounding noise around zero (e.g. -0.0 printed for a reference of 2e-16)
     unit = 10.0 ** (math.floor(math.log10(abs(exact))) - digits + 1)
     return abs(got - exact) <= 0.5 * unit * (1 + 1e-6) + rel * abs(exact)
